@@ -317,6 +317,7 @@ theorem semW_consumes (row : Row) : ∀ (w : Where) (ps : List Value) (t : Tri) 
     | cons p ps' => simp [semW, semLike] at h; exact ⟨[p], by simp [h.2], by simp [slots]⟩
   | .const b, ps, t, rest, h => by simp [semW] at h; exact ⟨[], by simp [h.2], by simp [slots]⟩
   | .false, ps, t, rest, h => by simp [semW] at h; exact ⟨[], by simp [h.2], by simp [slots]⟩
+  | .raw _, ps, t, rest, h => by simp [semW] at h; exact ⟨[], by simp [h.2], by simp [slots]⟩
   | .or ws, ps, t, rest, h => by
     simp only [semW] at h
     simpa [slots] using semOr_consumes row ws ps t rest h
